@@ -130,7 +130,7 @@ class Inliner:
                 return name, target, False
             # a function nested in the anchored function, when the caller asked for it by name
             nested = self.functions.get(f"{self.qual}.{name}")
-            if nested is not None and self.only is not None and name in self.only:
+            if nested is not None and ((self.only is not None and name in self.only) or name in getattr(self, "fresh_nested", ())):
                 return f"{self.qual}.{name}", nested, False
             return None
         if isinstance(func, ast.Attribute) and isinstance(func.value, ast.Name) and func.value.id in ("self", "cls") \
@@ -356,9 +356,11 @@ class Inliner:
 
 
 def inline_function(repo, rel: str, qual: str, func: ast.FunctionDef, depth: int = 2,
-                    only: Optional[Set[str]] = None) -> Tuple[ast.FunctionDef, List[str]]:
-    """ (copy of func with private helpers inlined, names of the helpers inlined) """
+                    only: Optional[Set[str]] = None, fresh_nested: Optional[Set[str]] = None) -> Tuple[ast.FunctionDef, List[str]]:
+    """ (copy of func with private helpers inlined, names of the helpers inlined); `fresh_nested` names nested functions
+        of func that the reference tree did not have (extractions) and that are inlined even without `only` """
     inliner = Inliner(repo, rel, qual, depth, only)
+    inliner.fresh_nested = set(fresh_nested or ())
     new = clone(func)
     names = _stored_names(new) | {n.id for n in ast.walk(new) if isinstance(n, ast.Name)}
     # nested function definitions keep their own bodies but are searched too (closures such as build_candidates)
